@@ -64,10 +64,10 @@ type NCSession struct {
 	BaseWrites  int        `json:"base_writes,omitempty"`
 	// CutEnum: this base scenario is followed by its cut enumeration (one sub-run per read boundary
 	// position from CutFrom to BaseEmitted)
-	CutEnum bool `json:"cut_enum,omitempty"`
-	CutFrom int  `json:"cut_from,omitempty"`
-	Refs        []C02Reply `json:"refs,omitempty"`   // C02: per reply reference
-	Frames      []C02Frame `json:"frames,omitempty"` // C02: raw frames for the direct decoder leg
+	CutEnum bool       `json:"cut_enum,omitempty"`
+	CutFrom int        `json:"cut_from,omitempty"`
+	Refs    []C02Reply `json:"refs,omitempty"`   // C02: per reply reference
+	Frames  []C02Frame `json:"frames,omitempty"` // C02: raw frames for the direct decoder leg
 }
 
 // NCRec is what one NETCONF operation did.
